@@ -213,6 +213,57 @@ func fromText(text string) (c Cmd, err error) {
 	case "SetAdminPrivilege":
 		need(2)
 		pbytes = mk(T("SetAdminPrivilegeCommand"), proto2.E_SetAdminPrivilegeCommand_Command, &proto2.SetAdminPrivilegeCommand{Username: ps(untok(a[0])), Admin: pb(pBool(a[1]))})
+	// ---- second layer of the model (OG/Meta/Model2.lean) ----
+	case "UpdateIndexInfoTier":
+		need(4)
+		pbytes = mk(T("UpdateIndexInfoTierCommand"), proto2.E_UpdateIndexInfoTierCommand_Command, &proto2.UpdateIndexInfoTierCommand{IndexID: pu64(pUint(a[0])), Tier: pu64(pUint(a[1])), DbName: ps(untok(a[2])), RpName: ps(untok(a[3]))})
+	case "UpdatePtVersion":
+		need(2)
+		pbytes = mk(T("UpdatePtVersionCommand"), proto2.E_UpdatePtVersionCommand_Command, &proto2.UpdatePtVersionCommand{Db: ps(untok(a[0])), Pt: pu32(uint32(pUint(a[1])))})
+	case "ReSharding":
+		need(5)
+		var bounds []string
+		for i := 0; i < int(pUint(a[4])); i++ {
+			bounds = append(bounds, fmt.Sprintf("b%d", i))
+		}
+		pbytes = mk(T("ReShardingCommand"), proto2.E_ReShardingCommand_Command, &proto2.ReShardingCommand{Database: ps(untok(a[0])), RpName: ps(untok(a[1])),
+			ShardGroupID: pu64(pUint(a[2])), SplitTime: p64(pInt(a[3])), ShardBounds: bounds})
+	case "ExpandGroups":
+		need(0)
+		pbytes = mk(T("ExpandGroupsCommand"), proto2.E_ExpandGroupsCommand_Command, &proto2.ExpandGroupsCommand{})
+	case "MarkTakeover":
+		need(1)
+		pbytes = mk(T("MarkTakeoverCommand"), proto2.E_MarkTakeoverCommand_Command, &proto2.MarkTakeoverCommand{Enable: pb(pBool(a[0]))})
+	case "MarkBalancer":
+		need(1)
+		pbytes = mk(T("MarkBalancerCommand"), proto2.E_MarkBalancerCommand_Command, &proto2.MarkBalancerCommand{Enable: pb(pBool(a[0]))})
+	case "CreateSubscription":
+		need(3)
+		pbytes = mk(T("CreateSubscriptionCommand"), proto2.E_CreateSubscriptionCommand_Command, &proto2.CreateSubscriptionCommand{Name: ps(untok(a[0])), Database: ps(untok(a[1])),
+			RetentionPolicy: ps(untok(a[2])), Mode: ps("ALL"), Destinations: []string{"http://h:1"}})
+	case "DropSubscription":
+		need(3)
+		pbytes = mk(T("DropSubscriptionCommand"), proto2.E_DropSubscriptionCommand_Command, &proto2.DropSubscriptionCommand{Name: ps(untok(a[0])), Database: ps(untok(a[1])), RetentionPolicy: ps(untok(a[2]))})
+	case "CreateContinuousQuery":
+		need(3)
+		pbytes = mk(T("CreateContinuousQueryCommand"), proto2.E_CreateContinuousQueryCommand_Command, &proto2.CreateContinuousQueryCommand{Database: ps(untok(a[0])), Name: ps(untok(a[1])),
+			Query: ps(strings.ReplaceAll(a[2], "_", " "))})
+	case "DropContinuousQuery":
+		need(2)
+		pbytes = mk(T("DropContinuousQueryCommand"), proto2.E_DropContinuousQueryCommand_Command, &proto2.DropContinuousQueryCommand{Name: ps(untok(a[0])), Database: ps(untok(a[1]))})
+	case "ContinuousQueryReport":
+		need(2)
+		pbytes = mk(T("ContinuousQueryReportCommand"), proto2.E_ContinuousQueryReportCommand_Command, &proto2.ContinuousQueryReportCommand{CQStates: []*proto2.CQState{{Name: ps(untok(a[0])), LastRunTime: p64(pInt(a[1]))}}})
+	case "CreateStream":
+		need(8)
+		si := &proto2.StreamInfo{Name: ps(untok(a[0])), ID: pu64(0),
+			SrcMst:   &proto2.StreamMeasurementInfo{Database: ps(untok(a[1])), RetentionPolicy: ps(untok(a[2])), Name: ps(untok(a[3]))},
+			DesMst:   &proto2.StreamMeasurementInfo{Database: ps(untok(a[4])), RetentionPolicy: ps(untok(a[5])), Name: ps(untok(a[6]))},
+			Interval: p64(pInt(a[7])), Delay: p64(0), Dims: []string{"t0"}, Calls: []*proto2.StreamCall{{Call: ps("sum"), Field: ps("f0"), Alias: ps("s")}}}
+		pbytes = mk(T("CreateStreamCommand"), proto2.E_CreateStreamCommand_Command, &proto2.CreateStreamCommand{StreamInfo: si})
+	case "DropStream":
+		need(1)
+		pbytes = mk(T("DropStreamCommand"), proto2.E_DropStreamCommand_Command, &proto2.DropStreamCommand{Name: ps(untok(a[0]))})
 	default:
 		return c, fmt.Errorf("unknown kind %s", kind)
 	}
